@@ -153,8 +153,9 @@ func (bo *BlockOperations) CommitAndValidateBlockTxs(block *types.Block, lastCom
 		// bo.logger.Info("Current blacklisted addresses", "addresses", tx_pool.StringifyBlacklist())
 	}
 
-	// Blockchain state at head block.
-	state, err := bo.blockchain.State()
+	// The state the block builds on: its parent's. That is the head state, except when a
+	// crash interrupted the commit of this very block after the head had already moved.
+	state, err := bo.blockchain.StateAt(block.Height() - 1)
 	if err != nil {
 		bo.logger.Error("Fail to get blockchain head state", "err", err)
 		return nil, common.Hash{}, err
